@@ -1,5 +1,6 @@
 //! vmc — bounded exhaustive exploration of vibrato against reference models.
 mod common;
+mod dhist;
 mod props;
 mod real;
 mod refmodel;
@@ -30,10 +31,18 @@ fn main() {
                 "C02" => props::tok::run(props::tok::Which::C02, tier),
                 "C03" => props::tok::run(props::tok::Which::C03, tier),
                 "C04" => props::c04::run(tier),
+                "C05" => props::c05::run(tier),
+                "C06" => props::c06::run(tier),
+                "C08" => props::c08::run(tier),
                 _ => usage(),
             };
             std::process::exit(code);
         }
+        "c05-export" => {
+            let depth = args.get(3).and_then(|s| s.parse().ok()).unwrap_or(1);
+            std::process::exit(props::c05::export(&args[2], depth));
+        }
+        "c05-import" => std::process::exit(props::c05::import(&args[2])),
         _ => usage(),
     }
 }
